@@ -11,6 +11,7 @@ import (
 	. "github.com/cube2222/octosql/execution"
 	"github.com/cube2222/octosql/octosql"
 	"github.com/cube2222/octosql/physical"
+	"github.com/cube2222/octosql/verifhook"
 )
 
 // jobIn is a single job for the parser worker pool.
@@ -70,6 +71,7 @@ var parserWorkReceiveChannel = func() chan<- jobIn {
 
 					out.record = NewRecord(values, false, time.Time{})
 				}
+				verifhook.JSONWorker(job.lines[0], len(job.lines))
 				select {
 				case job.outChan <- outJobs:
 				case <-job.ctx.Done():
